@@ -44,12 +44,43 @@ fn c16_hash_panic_in_realloc() -> Result<(), String> {
     Ok(())
 }
 
+/// C04 with an unsized borrowed key form: a lookup by a `&str` that ALIASES the first bytes of a stored `String` key (a
+/// prefix slice of the key's own buffer, obtained through peek_lru / iter) is a lookup of a different key. With hashers
+/// that make the prefix collide with the full key, only the equality test tells them apart.
+fn c04_alias_prefix() -> Result<(), String> {
+    for hk in [1u8, 2, 0, 4] {
+        let mut c: LruCache<String, u64, BH> = LruCache::with_capacity_and_hasher(usize::MAX, 8, BH(hk));
+        for (i, k) in ["hello world", "hello", "abcabc", "zz"].iter().enumerate() { c.insert(k.to_string(), i as u64).map_err(|_| "insert failed".to_string())?; }
+        c.remove("hello");
+        let stored: Vec<&String> = c.keys().collect();
+        for k in stored {
+            for n in 0..k.len() {
+                let prefix: &str = &k[..n];
+                let expect = ["hello world", "abcabc", "zz"].iter().any(|s| *s == prefix);
+                if c.contains(prefix) != expect { return Err(format!("hasher {}: contains({:?}) (a prefix slice of the stored key {:?}) = {}", hk, prefix, k, !expect)); }
+                if c.peek(prefix).is_some() != expect { return Err(format!("hasher {}: peek({:?}) aliasing {:?} found an entry", hk, prefix, k)); }
+                if c.peek_entry(prefix).is_some() != expect { return Err(format!("hasher {}: peek_entry({:?}) aliasing {:?} found an entry", hk, prefix, k)); }
+            }
+        }
+        // the same through the mutating lookups, with an equal-content but separately allocated prefix and with the alias
+        let owned_prefix = String::from("hello wor");
+        if c.get(owned_prefix.as_str()).is_some() || c.remove(owned_prefix.as_str()).is_some() { return Err(format!("hasher {}: a proper prefix of a stored key was found", hk)); }
+        if c.len() != 3 { return Err(format!("hasher {}: len {} after failed lookups", hk, c.len())); }
+        // slices of one buffer holding two keys back to back: "abcabc"[..3] == "abcabc"[3..] in content but not in address
+        c.insert("abc".to_string(), 9).map_err(|_| "insert failed".to_string())?;
+        let k6 = c.keys().find(|k| k.as_str() == "abcabc").unwrap().clone();
+        if c.peek(&k6[3..]) != Some(&9) || c.peek(&k6[..3]) != Some(&9) { return Err(format!("hasher {}: equal content at a different address was not found", hk)); }
+    }
+    Ok(())
+}
+
 fn main() {
     std::panic::set_hook(Box::new(|_| {}));
     let which = std::env::args().nth(1);
     let all: Vec<(&str, fn() -> Result<(), String>)> = vec![
         ("c08_zero_len_arrays", c08_zero_len_arrays), ("c09_pathbuf_capacity", c09_pathbuf_capacity),
-        ("c13_shrink_raises", c13_shrink_raises), ("c16_hash_panic_in_realloc", c16_hash_panic_in_realloc)];
+        ("c13_shrink_raises", c13_shrink_raises), ("c16_hash_panic_in_realloc", c16_hash_panic_in_realloc),
+        ("c04_alias_prefix", c04_alias_prefix)];
     for (name, f) in all {
         if let Some(w) = &which { if w != name { continue; } }
         match f() { Ok(()) => println!("DIRECTED {} ok", name), Err(e) => println!("DIRECTED {} FAIL {}", name, e) }
